@@ -1,6 +1,9 @@
 package pgmem
 
-import "sort"
+import (
+	"sort"
+	"strings"
+)
 
 type fromKind uint8
 
@@ -306,6 +309,9 @@ func (a *actx) addFrom(items []fromItem, sc *scope, off int) ([]*fromPlan, int, 
 			} else {
 				ts := a.cat.tables[fi.table]
 				if ts == nil {
+					if strings.HasPrefix(fi.table, "pg_") {
+						return nil, 0, unsupportedf("system catalog %s", fi.table)
+					}
 					return nil, 0, errf("42P01", "relation %q does not exist", fi.table)
 				}
 				fp.kind, fp.table = fkTable, fi.table
@@ -993,4 +999,3 @@ func (a *actx) insertStmt(n *aInsert) (*insertPlan, error) {
 	}
 	return ip, nil
 }
-
